@@ -222,6 +222,9 @@ def main(argv=None):
         print("VIOLATION property=%s replay=%s" % (prop, path), flush=True)
         reported.append(path)
         rc = 1
+    if reported:
+        # at least one violation was verified by replay: that is the verdict, whatever else could not be replayed
+        rc = 1
     for v in new[3:]:
         # further signatures of the same batch: kept un-minimised for triage
         if v.get("replay") is not None:
